@@ -10,6 +10,12 @@ import traceback
 def main():
     prop_id, inp, out = sys.argv[1:4]
     prop = importlib.import_module("vharness.props." + prop_id.lower())
+    # the library under test must be the tree the check was pointed at, never an installed copy
+    want = os.path.realpath(os.environ.get("VERIF_REPO", "/repo"))
+    import pabutools
+    got = os.path.realpath(os.path.dirname(os.path.dirname(pabutools.__file__)))
+    if got != want:
+        raise SystemExit("worker: pabutools imported from %s, expected %s" % (got, want))
     with open(out, "w") as fo:
         for line in open(inp):
             rec = json.loads(line)
